@@ -204,11 +204,15 @@ void run(const Case& c) {
 
   if (fn == 1) {
     // ---- DynamicBitSet: own bits interleaved in shared words + contended bits
-    galois::DynamicBitSet own, shared;
+    galois::DynamicBitSet own, shared, ranged;
     own.resize(64 * T);
     shared.resize(64);
+    ranged.resize(128);
     own.reset();
     shared.reset();
+    ranged.reset();
+    std::set<size_t> ranged_set;
+    long range_resets = 0;
     std::vector<std::vector<int>> first_setter(T); // contended bits for which set() returned "was clear"
     std::string err;
     tp.run(T, [&]() {
@@ -229,11 +233,30 @@ void run(const Case& c) {
             err = b;
           }
           mine[bit] = o.kind == 0;
-        } else {
+        } else if (o.kind == 2) {
           bool old = shared.set((size_t)o.val % 8);
           Quiet q;
           if (!old)
             first_setter[tid].push_back(o.val % 8);
+        } else if (tid == 0) {
+          // range reset inside the upper half of a word whose lower half other threads are setting:
+          // the partially covered word must lose exactly the bits of the range
+          size_t w = (size_t)o.val % 2, b = 64 * w + 32 + (size_t)(o.val / 2) % 8, e = 64 * w + 63 - (size_t)(o.val / 16) % 4;
+          ranged.set(b);
+          ranged.set(e);
+          ranged.reset(b, e);
+          Quiet q;
+          ++range_resets;
+          if ((ranged.test(b) || ranged.test(e)) && err.empty()) {
+            char buf[160];
+            snprintf(buf, sizeof buf, "reset(%zu,%zu) left bit %zu set", b, e, ranged.test(b) ? b : e);
+            err = buf;
+          }
+        } else {
+          size_t bit = 64 * ((size_t)o.val % 2) + (size_t)(o.val / 2) % 32; // lower half: never reset by anybody
+          ranged.set(bit);
+          Quiet q;
+          ranged_set.insert(bit);
         }
       }
       Quiet q;
@@ -254,7 +277,7 @@ void run(const Case& c) {
       for (auto& o : per[t]) {
         if (o.kind <= 1)
           last[(size_t)o.val * T + t] = o.kind == 0;
-        else
+        else if (o.kind == 2)
           setters[o.val % 8].insert((int)t);
       }
     size_t want_count = 0;
@@ -279,9 +302,13 @@ void run(const Case& c) {
       VCHECK(firsts == 1, "bitset-test-and-set", "bit %d set by %zu threads: %d calls returned 'was clear' (exactly one must)", kv.first, kv.second.size(), firsts);
       contended_bits += kv.second.size() >= 2;
     }
+    for (size_t bit : ranged_set)
+      VCHECK(ranged.test(bit), "bitset-range-reset-neighbour", "bit %zu was set and never reset, but reads 0 after %ld concurrent range resets of the other half of its word", bit,
+             range_resets);
+    label("range_resets_vs_sets", (long)(range_resets > 0 && !ranged_set.empty()));
     label("shared_words", (long)std::min(shared_words, 3));
     label("contended_bits", (long)std::min(contended_bits, 3));
-    nontrivial((shared_words >= 1 || contended_bits >= 1) && gsched_switches() >= 2);
+    nontrivial((shared_words >= 1 || contended_bits >= 1 || (range_resets > 0 && !ranged_set.empty())) && gsched_switches() >= 2);
     vok();
   }
 
